@@ -80,6 +80,19 @@ def entity_xml(e, standalone=True):
 
 
 def doc_xml(d):
+    x = _doc_xml(d)
+    pfx = d.get('prefix')
+    if pfx == '':
+        # the metadata namespace as default namespace
+        x = x.replace('<md:', '<').replace('</md:', '</').replace('xmlns:md=', 'xmlns=')
+    elif pfx:
+        x = x.replace('<md:', '<%s:' % pfx).replace('</md:', '</%s:' % pfx).replace('xmlns:md=', 'xmlns:%s=' % pfx)
+    if d.get('prolog'):
+        x = d['prolog'] + x
+    return x
+
+
+def _doc_xml(d):
     if d['kind'] == 'single':
         return entity_xml(d['entities'][0])
     v = vu(d.get('valid_until'))
@@ -179,6 +192,18 @@ def federations(thorough):
     F.append(('remote-novalidity|expired+idpA', [rem, {'kind': 'multi', 'entities': [E('expired'), E('idpA')]}]))
     F.append(('remote-default-expired', [{'kind': 'multi', 'entities': [E('expired'), E('fresh')], 'via': 'remote'}]))
     F.append(('expired|remote-novalidity', [{'kind': 'single', 'entities': [E('expired')]}, rem]))
+    # other (legal) namespace prefixes of the metadata namespace, a prolog in front of the document element
+    for pfx in ('saml-md', 'md.fed', 'm\u00e9ta', 'md2', '', '_'):
+        F.append(('prefix:%r:multi:idpA+spX' % pfx, [{'kind': 'multi', 'entities': [E('idpA'), E('spX')], 'prefix': pfx}]))
+        F.append(('prefix:%r:single:idpA' % pfx, [{'kind': 'single', 'entities': [E('idpA')], 'prefix': pfx}]))
+    for pl in ('<?xml version="1.0" encoding="UTF-8"?>\n<!-- <md:EntityDescriptor> -->\n', '<!--x--><?pi <EntityDescriptor ?>\n'):
+        F.append(('prolog:multi:idpA+spX:%d' % len(pl), [{'kind': 'multi', 'entities': [E('idpA'), E('spX')], 'prolog': pl}]))
+    # a source loaded again under the same key after its document changed: what the *current* documents declare
+    for first, then in ((E('idpA'), E('idpA', 1)), (E('idpA', 1), E('idpA')), (E('idpA'), E('spX')), (E('fresh'), E('expired'))):
+        F.append(('reload:%s->%s' % (first['id'], then['id']) + (':v' if first['id'] == then['id'] else ''),
+                  [{'kind': 'single', 'entities': [first], 'then': {'kind': 'single', 'entities': [then]}}]))
+    F.append(('reload:multi:idpA+spX->idpA-v1', [{'kind': 'multi', 'entities': [E('idpA'), E('spX')],
+                                                  'then': {'kind': 'multi', 'entities': [E('idpA', 1)]}}, {'kind': 'single', 'entities': [E('aa')]}]))
     if thorough:
         for a, b, c in itertools.permutations(['idpA', 'spX', 'dual', 'expired'], 3):
             F.append(('three:%s|%s|%s' % (a, b, c), [{'kind': 'single', 'entities': [E(x)]} for x in (a, b, c)]))
@@ -238,6 +263,18 @@ def build_store(docs):
                 if 'check_validity' in d:
                     kw['check_validity'] = d['check_validity']
                 mds.load('remote', **kw)
+            elif d.get('then'):
+                import os
+                q = os.path.join(TMP[0], 'reload-%d-%d.xml' % (os.getpid(), i))      # a file of this evaluation alone
+                with open(q, 'w', encoding='utf-8') as f:
+                    f.write(doc_xml(d))
+                try:
+                    mds.load('local', q)
+                    with open(q, 'w', encoding='utf-8') as f:
+                        f.write(doc_xml(d['then']))
+                    mds.load('local', q)
+                finally:
+                    os.unlink(q)
             else:
                 mds.load('local', p)
         except Exception as e:
@@ -287,6 +324,7 @@ def _evaluate(fed):
         mds, load_err = build_store(docs)
     except Exception as e:
         return name, 0, [('load-raised', type(e).__name__, None)]
+    docs = [d.get('then', d) for d in docs]        # the oracle looks at what the sources hold now
     compat = {}     # (pass, eid) -> set of candidate indexes every data answer so far is compatible with
 
     def narrow(pas, eid, ok_idx):
@@ -490,6 +528,30 @@ def evaluate_roundtrip(which):
         eps = {'assertion_consumer_service': conf.getattr('endpoints', 'sp')['assertion_consumer_service'],
                'single_logout_service': conf.getattr('endpoints', 'sp')['single_logout_service']}
         sign = 'spX'
+    elif which.startswith('multi-role'):
+        # one configuration serving several roles, with encryption key pairs: every role's descriptor carries them
+        from saml2_tophat.config import Config as _Cfg
+        usage = which.split(':')[1]
+        cd = world.idp_config(TMP[0], [], top={'encryption_keypairs': [{'key_file': world.key('spXenc1'), 'cert_file': world.crt('spXenc1')}],
+                                               'metadata_key_usage': usage})
+        cd['service']['aa'] = {'endpoints': {'attribute_service': [('https://idpa.example/aa', world.BINDING_SOAP)]}}
+        cd['service']['sp'] = {'endpoints': {'assertion_consumer_service': [('https://idpa.example/acs', world.BINDING_HTTP_POST)]}}
+        conf = _Cfg()
+        conf.load(cd)
+        xml = world.generated_metadata(conf)
+        c2 = Config()
+        c2.xmlsec_binary = world.XMLSEC
+        mds = MetadataStore(ac_factory(), c2)
+        mds.load('local', world.write_md(TMP[0], xml))
+        bad = []
+        for role in ('idpsso', 'spsso', 'attribute_authority'):
+            ce = [''.join(x.split()) for x in mds.certs(conf.entityid, role, 'encryption')]
+            cs = [''.join(x.split()) for x in mds.certs(conf.entityid, role, 'signing')]
+            if usage in ('both', 'encryption') and world.cert_b64('spXenc1') not in ce:
+                bad.append(('encryption-cert-not-round-tripped', role, len(ce)))
+            if usage in ('both', 'signing') and world.cert_b64('idpA') not in cs:
+                bad.append(('signing-cert-not-round-tripped', role, len(cs)))
+        return which, bad
     else:
         ent = world.make_idp(TMP[0])
         conf = ent.config
@@ -542,8 +604,13 @@ def run(ctx):
         if bad:
             ctx.violation({'kind': bad.split(':')[0], 'signature_state': case[0], 'loader_cert': case[1], 'shape': case[2]},
                           {'served': served, 'load_returned': r, 'raised': raised})
-    for which in ('sp', 'sp-enc', 'idp', 'sp-indexed:tuples', 'sp-indexed:zero-last', 'sp-indexed:strings', 'sp-indexed:gaps'):
-        w, bad = evaluate_roundtrip(which)
+    for which in ('sp', 'sp-enc', 'idp', 'sp-indexed:tuples', 'sp-indexed:zero-last', 'sp-indexed:strings', 'sp-indexed:gaps', 'multi-role:both', 'multi-role:encryption', 'multi-role:signing'):
+        try:
+            w, bad = evaluate_roundtrip(which)
+        except NameError:
+            raise
+        except Exception as e:          # generating or loading back the entity's own metadata failed
+            bad = [('config-round-trip-raised:%s' % type(e).__name__, None, None)]
         n += 1
         nontriv.add(('roundtrip', which))
         for kind, svc, got in bad:
